@@ -263,7 +263,7 @@ func (u *unit) serialize() (udb *unitDB) {
 
 	return &unitDB{
 		NTotal:             u.nTotal,
-		NResult:            append([]uint64{}, u.nResult...),
+		NResult:            u.nResult,
 		Domains:            convertMapToSlice(u.domains, maxDomains),
 		BlockedDomains:     convertMapToSlice(u.blockedDomains, maxDomains),
 		Clients:            convertMapToSlice(u.clients, maxClients),
